@@ -7,6 +7,7 @@ import MayVerif.Model.Sync.SemReplay
 import MayVerif.Model.Sync.SyncFlagReplay
 import MayVerif.Model.Queue.MpscReplay
 import MayVerif.Model.Queue.SpscReplay
+import MayVerif.Model.Runtime.JoinReplay
 open MayVerif
 
 def machines : List (String × Machine) := [
@@ -14,5 +15,6 @@ def machines : List (String × Machine) := [
   ("sem", MayVerif.Sem.machine),
   ("syncflag", MayVerif.SyncFlag.machine),
   ("mq_mpsc", MayVerif.Mpsc.machine),
-  ("mq_spsc", MayVerif.Spsc.machine)
+  ("mq_spsc", MayVerif.Spsc.machine),
+  ("join", MayVerif.Join.machine)
 ]
